@@ -180,7 +180,7 @@ fn check_cmd(args: &[String]) -> i32 {
       if thorough { wa.push("--thorough".into()); }
       CheckSpec {
         property: property.clone(), world: "W3".into(), tier: tier.clone(), seed, level: "fault_enumeration".into(),
-        rule: format!("W3 bytecode pipeline: producer node (real Interpreter: interpret + compile) -> storage medium owned by the simulator (byte vector; 1 run in 8 also through a real file and load_program_from_file) -> consumer node (fresh thread, other hash seed: ParsedProgram::from_bytes, decode_const_entries). Corpus: {} programs (every snippet harvested at run time from /repo/tests/interpreter.rs and tests/bytecode.rs plus an operator/kind/shape sampler); the first runs walk the corpus in order, from run 24 on interleaved 3:1 with generated programs (literal-only programs with every constant class and variable-width elements — strings of differing byte lengths and multi-byte characters in matrices, sets, records, tables, maps —, W1 sessions batched into one text, assignment templates, relational programs); after the walk half of the runs are generated. Per emitted file: configuration 0/1 (loader accepts it, to_bytes(from_bytes(b)) == b, decoded header/constants/instructions/features/types equal the compiler's CompileCtx field by field) and then storage faults: truncation (t), single bit flips (b), bursts of 2-32 bits (u) must be rejected; zeroed/0xFF/misdirected sectors (z), appended/duplicated regions (a), random byte strings incl. real header prefixes (r), structure-aware single-field boundary values with the checksum recomputed (s) and random patches with the checksum recomputed (c) must never panic, hang or allocate more than 64 MiB + 64 x file length (counting allocator; hard cap turns it into a worker death attributed to the run), nor burn more than 3 s (+20 ms per KiB) of thread CPU time on one file (CLOCK_THREAD_CPUTIME_ID, not wall clock: a loop whose length comes from a field of the file); structure-aware mutations include both leading words of a constant together (rows x columns: zero times huge). One nesting bomb per file (n): a constant re-typed as set/table and pointed at 2 000-120 000 bytes of nested kind tags (matrix-of, set-of, table-with-one-column-of) appended to the blob, checksum valid, fed on a thread with an 8 MiB stack — unbounded recursion shows as a dead worker that the supervisor attributes and confirms. {} Read-time faults (i, hook H1 `verif_load_program_from_reader`): 24-63 loads per run through the simulator's reader — short reads (1..n bytes per call), EINTR on every n-th call, EIO at the k-th read, a failing k-th seek, end-of-file before the declared length, and a medium that starts serving other (structurally mutated) bytes after n calls; a third of the benign plans ride on a damaged file. Short reads and EINTR must not change the answer (same program or same error kind as from_bytes on the same bytes); hard faults may only fail the load or leave it identical; nothing may panic, exceed the read-call budget or the allocation limit. Runs that go through a real file additionally write 24 damaged files to tmpfs and demand that load_program_from_file answers exactly like from_bytes (f). A run is non-trivial if a file was emitted and damaged files were fed; distinct = digest over program, fault sequence and loader outcomes.", corpus_len, if thorough { "Thorough tier: t and b are enumerated completely (every length, every bit) for every emitted file of the corpus; the other kinds are seeded samples." } else { "Quick tier: t and b are enumerated completely for the first 24 corpus programs; otherwise all kinds are seeded samples (150-400 per run)." }),
+        rule: format!("W3 bytecode pipeline: producer node (real Interpreter: interpret + compile) -> storage medium owned by the simulator (byte vector; 1 run in 8 also through a real file and load_program_from_file) -> consumer node (fresh thread, other hash seed: ParsedProgram::from_bytes, decode_const_entries). Corpus: {} programs (every snippet harvested at run time from /repo/tests/interpreter.rs and tests/bytecode.rs plus an operator/kind/shape sampler); the first runs walk the corpus in order, from run 24 on interleaved 3:1 with generated programs (literal-only programs with every constant class and variable-width elements — strings of differing byte lengths and multi-byte characters in matrices, sets, records, tables, maps —, W1 sessions batched into one text, assignment templates, relational programs); after the walk half of the runs are generated. Per emitted file: configuration 0/1 (loader accepts it, to_bytes(from_bytes(b)) == b, decoded header/constants/instructions/features/types equal the compiler's CompileCtx field by field) and then storage faults: truncation (t), single bit flips (b), bursts of 2-32 bits (u) must be rejected; zeroed/0xFF/misdirected sectors (z), appended/duplicated regions (a), random byte strings incl. real header prefixes (r), structure-aware single-field boundary values with the checksum recomputed (s) and random patches with the checksum recomputed (c) must never panic, hang or allocate more than 64 MiB + 64 x file length (counting allocator; hard cap turns it into a worker death attributed to the run), nor burn more than 3 s (+20 ms per KiB) of thread CPU time on one file (CLOCK_THREAD_CPUTIME_ID, not wall clock: a loop whose length comes from a field of the file); structure-aware mutations include both leading words of a constant together (rows x columns: zero times huge). One nesting bomb per file (n): a constant re-typed as set/table and pointed at 2 000-120 000 levels of nested kind tags (matrix-of, set-of: one byte per level; table-with-one-column-of: nine) appended to the blob, checksum valid, fed on a thread with a 2 MiB stack (std's default for spawned threads) — unbounded recursion shows as a dead worker that the supervisor attributes and confirms. {} Read-time faults (i, hook H1 `verif_load_program_from_reader`): 24-63 loads per run through the simulator's reader — short reads (1..n bytes per call), EINTR on every n-th call, EIO at the k-th read, a failing k-th seek, end-of-file before the declared length, and a medium that starts serving other (structurally mutated) bytes after n calls; a third of the benign plans ride on a damaged file. Short reads and EINTR must not change the answer (same program or same error kind as from_bytes on the same bytes); hard faults may only fail the load or leave it identical; nothing may panic, exceed the read-call budget or the allocation limit. Runs that go through a real file additionally write 24 damaged files to tmpfs and demand that load_program_from_file answers exactly like from_bytes (f). A run is non-trivial if a file was emitted and damaged files were fed; distinct = digest over program, fault sequence and loader outcomes.", corpus_len, if thorough { "Thorough tier: t and b are enumerated completely (every length, every bit) for every emitted file of the corpus; the other kinds are seeded samples." } else { "Quick tier: t and b are enumerated completely for the first 24 corpus programs; otherwise all kinds are seeded samples (150-400 per run)." }),
         worker_args: wa,
         runs: if thorough { corpus_len * 4 / 3 + 2_000_000 } else { corpus_len * 4 / 3 + 40_000 },
         budget: Duration::from_secs(if thorough { 900 } else { 55 }),
